@@ -22,15 +22,24 @@ def gen(name: str, n: int) -> list:
     return list(sp.symbols(f"{name}1:{n + 1}", real=True)) if n else []
 
 
-def binary_cases(la: int, lb: int) -> list[tuple[str, str]]:
+def binary_cases(la: int, lb: int, alias: str = "independent") -> list[tuple[str, str]]:
     from symplyphysics import (Vector, add_cartesian_vectors, subtract_cartesian_vectors,
         dot_vectors, cross_cartesian_vectors, scale_vector, vector_magnitude, vector_unit)
     from symplyphysics.core.vectors.arithmetics import (project_vector, reject_cartesian_vector,
         equal_vectors)
     a, b = gen("a", la), gen("b", lb)
+    if alias == "prefix":  # the operands share their leading components (same symbols)
+        pool = gen("a", 3)
+        a, b = pool[:la], pool[:lb]
+    elif alias == "reversed":
+        pool = gen("a", 3)
+        a, b = pool[:la], pool[::-1][:lb]
+    elif alias == "numbers":  # numeric vectors with a common prefix
+        nums = [sp.Integer(2), sp.Integer(3), sp.Integer(5)]
+        a, b = nums[:la], nums[:lb]
     k, m = sp.symbols("k m", real=True)
     A, B = Vector(a), Vector(b)
-    tag = f"{la}x{lb}"
+    tag = f"{la}x{lb}" + ("" if alias == "independent" else f":{alias}")
     out: list[tuple[str, str]] = []
 
     def chk(name: str, ok: bool, detail: str = "") -> None:
@@ -75,6 +84,10 @@ def binary_cases(la: int, lb: int) -> list[tuple[str, str]]:
     chk("equal_vectors-padded", equal_vectors(A, A3) is True)
     if la and lb:
         chk("equal_vectors-different", equal_vectors(A, Vector([x + 1 for x in a])) is False)
+    if alias != "independent":
+        # a vector that is zero for these operands: no direction to project on / normalise
+        if R.is_zero(R.norm2(b)):
+            return out
     if lb:
         p = project_vector(A, B)
         rj = reject_cartesian_vector(A, B)
@@ -302,7 +315,7 @@ def _work(item: tuple) -> dict:
                     "key": k}))
         return res0
     if kind == "binary":
-        cases = binary_cases(*payload)
+        cases = binary_cases(*payload[:2], alias=payload[2] if len(payload) > 2 else "independent")
     elif kind == "ternary":
         cases = ternary_cases(*payload)
     elif kind == "quaternary":
@@ -322,6 +335,8 @@ def _work(item: tuple) -> dict:
 
 def main(run: Run) -> int:
     items: list[tuple] = [("binary", p) for p in itertools.product(range(4), repeat=2)]
+    items += [("binary", p + (al, )) for p in itertools.product(range(4), repeat=2) for al in
+        ("prefix", "reversed", "numbers")]
     items += [("ternary", p) for p in itertools.product(range(4), repeat=3)]
     items += [("quaternary", p) for p in itertools.product(range(4), repeat=4)]
     items.append(("refusal", None))
@@ -334,7 +349,8 @@ def main(run: Run) -> int:
         run.absorb([r])
     return run.finish(
         rule="all 16 / 64 / 256 operand length combinations (0..3 each) with distinct generic real "
-        "symbols as components; every operation compared with the tuple reference and every "
+        "symbols as components, the binary ones also with operands that share components (common "
+        "prefix, reversed order, equal numbers); every operation compared with the tuple reference and every "
         "identity of the property evaluated by exact normal form; refusal matrix of 7 binary "
         "functions x 36 ordered pairs of coordinate-system instances x 3 lengths; all sequences of "
         "2 (thorough: 3) operations from {magnitude, unit, dot, scale, project} x 3 systems on one "
